@@ -13,7 +13,8 @@ THEOREMS = [
     "op_accept_iff", "add_op_effect", "unauthorised_rejected", "forged_rejected",
     "foreign_address_rejected", "oversized_rejected",
     "reachable_valid", "reachable_valid_at_limit_refuted", "reachable_accepted_by_peers",
-    "verified_register_applies",
+    "verified_register_applies", "merge_all_order_independent", "merge_all_is_union",
+    "replicas_present_same_values", "reachable_wf",
 ]
 RULE = ("a case is a whole history over real BLS keys: (accept) one replica, every flavour of operation -- authorised, "
         "unauthorised, junk-signed, signed by another key for the claimed source, signature transplanted from another "
@@ -71,6 +72,9 @@ class B:
     def replica(self, reg):
         self.c["replicas"].append(reg)
         return len(self.c["replicas"]) - 1
+
+    def init_ops(self, slot, ops):
+        self.c.setdefault("init_ops", {})[str(slot)] = list(ops)
 
     def step(self, *s):
         self.c["steps"].append(list(s))
@@ -148,10 +152,10 @@ def gen_accept(rng):
     addr = (meta, owner)
     perms = rand_perms(rng)
     kind = rng.random()
-    if kind < 0.7:
+    if kind < 0.62:
         r = b.reg(meta, owner, perms)
     elif kind < 0.8:
-        r = b.reg(meta, owner, perms if perms is not None else [1], raw=True)   # owner not added to the writers
+        r = b.reg(meta, owner, rng.choice([[], [], [1], [2, 3]]), raw=True)     # owner not added to the writers
     elif kind < 0.87:
         r = b.reg(meta, owner, perms, sig={"junk": 1})
     elif kind < 0.94:
@@ -249,6 +253,38 @@ def gen_laws(rng):
     return b.finish_all()
 
 
+def gen_received(rng):
+    """registers that arrive ready-made (SignedRegister::new with arbitrary operations), as a node receives
+    them: verify / verify_with_address / verified_merge must refuse anything a replica could not have reached"""
+    b = B("received")
+    meta, owner = 1, 0
+    addr = (meta, owner)
+    perms = rand_perms(rng)
+    r = b.reg(meta, owner, perms)
+    bad = rng.random()
+    rj = r if bad < 0.75 else b.reg(meta, owner, perms, sig=rng.choice([{"junk": 2}, {"by": 3, "reg": 0}]))
+    nodes = rand_dag(b, rng, rng.randrange(2, 7), dangling=0.1)
+    if rng.random() < 0.3:
+        nodes.append(b.node([], rand_val(rng, big=True)))
+    good = [b.op(addr, nd, rng.choice([0, 1])) for nd in rng.sample(nodes, min(len(nodes), 3))]
+    mixed = op_flavours(b, rng, addr, [(2, 0), (1, 1)], nodes, rng.randrange(1, 6))
+    i, j = b.replica(r), b.replica(rj)
+    for o in rng.sample(good, rng.randrange(0, len(good) + 1)):
+        b.step("add", i, o)
+    b.init_ops(j, rng.sample(good, rng.randrange(0, len(good) + 1)) + (mixed if rng.random() < 0.8 else []))
+    b.step("verify", j)
+    b.step("verify_addr", j, list(addr))
+    b.step("vmerge", i, j)
+    b.step("dump", i)
+    b.step("verify", i)
+    b.step("client", i)
+    k = b.replica(r)
+    b.step("merge", k, j)                 # the unverified merge takes anything of the same base
+    b.step("dump", k)
+    b.step("verify", k)
+    return b.c
+
+
 def gen_exhaustive(rng, k):
     """every delivery order of k operations (one replica per order), plus one order with duplication"""
     b = B("exhaustive")
@@ -344,7 +380,7 @@ def gen_crdt(rng, exhaustive_k=None):
     else:
         nodes = rand_dag(b, rng, rng.randrange(3, 12), dangling=0.12, width=3)
     ops = [b.op(addr, nd, rng.choice([0, 1, 3]), rng.choice([None, None, {"junk": 0}])) for nd in nodes]
-    foreign = [b.op((2, 0), nd, 0) for nd in nodes[:2]]
+    foreign = [b.op((2, 0), nodes[0], 0), b.op((1, 1), nodes[-1], 1), b.op((1, 3), nodes[0], 3, {"junk": 1})]
     reps = []
     if exhaustive_k:
         for perm in itertools.permutations(ops):
@@ -367,7 +403,7 @@ def gen_crdt(rng, exhaustive_k=None):
                 rng.shuffle(seq)
             for o in seq:
                 b.step("apply", i, o)
-                if rng.random() < 0.08:
+                if rng.random() < 0.15:
                     b.step("apply", i, rng.choice(foreign))
             full.append(i)
         else:
@@ -389,6 +425,8 @@ def gen(ctx):
         cases.append(gen_converge(rng))
     for _ in range(30 if quick else 300):
         cases.append(gen_laws(rng))
+    for _ in range(40 if quick else 400):
+        cases.append(gen_received(rng))
     for _ in range(3 if quick else 12):
         cases.append(gen_exhaustive(rng, 3))
     for _ in range(2 if quick else 10):
@@ -561,6 +599,13 @@ def oracle(c, o):
         w = writers_of(r)
         return (r["meta"], r["owner"], None if w is None else frozenset(w))
 
+    for slot, l in c.get("init_ops", {}).items():
+        S[int(slot)] = set(ident[x] for x in l)
+        seen[int(slot)] = set(ident[x] for x in l if op_defect(c, regs[regof[int(slot)]], x) is None)
+
+    def defective(i):
+        return any(op_defect(c, regs[regof[i]], canon[x]) is not None for x in S[i])
+
     for k, (s, r) in enumerate(zip(steps, outs)):
         kind, i = s[0], s[1]
         if kind == "add":
@@ -587,10 +632,13 @@ def oracle(c, o):
             if r["c"] == 0:
                 if not same:
                     v.append(("different-base-merged", "step %d: %s of a register with a different base succeeded" % (k, kind)))
+                if kind == "vmerge" and (not sound_base(j) or defective(j)):
+                    v.append(("unverified-merged", "step %d: verified_merge took over a register that is not owner-signed or "
+                              "holds operations its base does not authorise" % k))
                 S[i] |= S[j]
             elif same and r["c"] == 5:
                 v.append(("same-base-not-merged", "step %d: %s of two replicas of one base register was refused" % (k, kind)))
-            elif same and kind == "vmerge" and sound_base(j):
+            elif same and kind == "vmerge" and sound_base(j) and not defective(j):
                 # a peer refuses a state another replica reached through accepted operations and merges
                 if r["c"] == 4 and len(S[j]) >= MAXN:
                     v.append(("entry-limit", "step %d: verified_merge refuses a reachable replica state holding %d entries" % (k, len(S[j]))))
@@ -610,7 +658,10 @@ def oracle(c, o):
                           % (k, len(order), len(S[i]))))
             if kind == "dump":
                 dumps[i] = frozenset(held)
-            if kind in ("verify", "verify_addr") and sound_base(i):
+            if kind in ("verify", "verify_addr") and sound_base(i) and defective(i) and r["c"] == 0:
+                v.append(("invalid-register-verified", "step %d: verify() accepted a register holding an operation its base "
+                          "does not authorise (or an oversized entry)" % k))
+            if kind in ("verify", "verify_addr") and sound_base(i) and not defective(i):
                 want_ok = kind == "verify" or s[2] == [regs[regof[i]]["meta"], regs[regof[i]]["owner"]]
                 if want_ok and r["c"] != 0:
                     if r["c"] == 4 and len(S[i]) >= MAXN:
@@ -757,6 +808,12 @@ def model_term(c, o):
         sg = "(Junk %s)" % cN(s["junk"]) if "junk" in s else "(Sig %s (MReg %s))" % (cN(s["by"]), bases[s["reg"]])
         regs.append("mksreg %s %s []" % (bases[i], sg))
     t += " let RS := %s in\n" % clist(regs)
+    def init_term(k, i):
+        l = c.get("init_ops", {}).get(str(k))
+        if l is None:
+            return "nth %d RS dummy_sreg" % i
+        return "with_ops (nth %d RS dummy_sreg) (oset %s)" % (i, clist(["po %s" % cN(x) for x in l]))
+
     steps, obs = [], []
     for s, r in zip(c["steps"], o["steps"]):
         k = s[0]
@@ -778,7 +835,7 @@ def model_term(c, o):
             steps.append("SClient %d" % s[1])
         obs.append("mkobs %s %s %s" % (c_res(r), order(r), c_read(r.get("read", []), rk, c, o)))
     t += " agree_hist HT sym_d64 %s\n %s\n %s" % (
-        clist(["nth %d RS dummy_sreg" % i for i in c["replicas"]]), clist(steps), clist(obs))
+        clist([init_term(k, i) for k, i in enumerate(c["replicas"])]), clist(steps), clist(obs))
     return "(" + t + ")"
 
 
